@@ -337,8 +337,14 @@ def make_state(rng, cand, d, rip, want_fault=None, force_T=None):
         for a in areas:
             if a[0] <= w < a[0] + a[1] - 48:
                 a[3][w] = blob(48)
-    if rng.random() < 0.4:
+    if rng.random() < (0.7 if d["code"].split("_")[0] in ("Div", "Idiv") else 0.4):
         apply_value_pairs(rng, case, d, T if has_mem and placement in ("rw", "rwx", "edge") else None)
+    # 32-bit register operands: garbage in the upper halves (a 32-bit write must clear it, a read must ignore it)
+    for nm in (d["r0"], d["r1"]):
+        if nm in REGIDX and REGIDX[nm][1] == 32 and REGIDX[nm][0] != 6 and rng.random() < 0.5:
+            k32 = REGIDX[nm][0]
+            if nm not in (d["base"], d["index"]):
+                regs[k32] = (regs[k32] & 0xffffffff) | (rng.choice([0xdeadbeef, 0xffffffff, 1, 0x80000000]) << 32)
     if d["code"].endswith("_CL") and rng.random() < 0.7 and d["base"] not in ("RCX", "ECX") and d["index"] not in ("RCX", "ECX"):
         # shift counts around the masking boundaries (CL is masked to 5 or 6 bits; a masked count of 0 changes nothing)
         cl = rng.choice([0, 1, 2, 7, 8, 15, 16, 17, 31, 32, 33, 63, 64, 65, 0x80, 0x81, 0xa0, 0xc0, 0xe0, 0xff, 0x1f, 0x3f, 0x40])
@@ -409,12 +415,12 @@ def apply_value_pairs(rng, case, d, T):
         dv = rng.choice([1, m, 2, top, top - 1, 3, rng.randrange(1, 1 << w)])
         sdv = dv - (1 << w) if dv & top else dv
         q = rng.choice([top, top - 1, m, (1 << w), top + 1, 0, 1]) if fam == "Div" else rng.choice([-top, top - 1, top, -top - 1, -1, 0])
-        if fam == "Idiv" and rng.random() < 0.2:
+        if fam == "Idiv" and rng.random() < 0.45:
             # the most negative double-width dividend divided by -1 (and neighbours)
-            dv = rng.choice([m, m, 1, m - 1])
+            dv = rng.choice([m, m, m, 1, m - 1])
             sdv = dv - (1 << w) if dv & top else dv
             q = 0
-            special_dividend = rng.choice([1 << (2 * w - 1), (1 << (2 * w - 1)) + 1, (1 << (2 * w)) - 1, 1 << (w - 1)])
+            special_dividend = rng.choice([1 << (2 * w - 1), 1 << (2 * w - 1), (1 << (2 * w - 1)) + 1, (1 << (2 * w)) - 1, 1 << (w - 1)])
         else:
             special_dividend = None
         rem = rng.randrange(0, min(abs(sdv) if fam != "Div" else dv, 1 << 16) or 1)
